@@ -16,7 +16,7 @@ ASSUMPTIONS = []
 SHARED = [('C07', ('B2.reader',), 'G5.length-reader'), ('C07', ('B7.',), 'G6.tlv-parser')]      # the frame boundary is where the length reader says it is, however the bytes arrive
 CONFIGS = ['default', 'nodefault', 'rustls', 'gssapi']
 
-MUTATORS = ('advance', 'split_to', 'split_off', 'split', 'truncate', 'clear', 'resize', 'extend', 'extend_from_slice', 'put', 'put_slice', 'unsplit', 'set_len', 'reserve', 'freeze', 'copy_to_bytes', 'get_u8')
+MUTATORS = ('advance', 'split_to', 'split_off', 'split', 'truncate', 'clear', 'resize', 'extend', 'extend_from_slice', 'put', 'put_slice', 'unsplit', 'set_len', 'freeze', 'copy_to_bytes', 'get_u8')
 
 def check_frame_decoder(ctx, f, G1='G1', G2='G2'):
     """Path-level rules of the frame decoder (shared with C11 H5: a complete frame is delivered or rejected, never awaited)."""
@@ -40,6 +40,9 @@ def check_frame_decoder(ctx, f, G1='G1', G2='G2'):
             ctx.fail(G2 + '.parser-input', dp, loc(B.root), 'the TLV parser is not applied exactly once to the whole buffer on some path'); continue
         pterm = ('call', pcs[0][1], pcs[0][2], pcs[0][3].get('id'))
         inc = next((t for a, t in o.st.pc if a[0] == 'call' and a[1].endswith('::is_incomplete') and a[2][0] == ('variant', pterm, 'Err', 0)), None)
+        if inc is None:
+            # the same test spelled as a pattern: Err(nom::Err::Incomplete(_))
+            inc = next((t for a, t in o.st.pc if a[0] == 'is' and a[1] == ('variant', pterm, 'Err', 0) and a[2].rsplit('::', 1)[-1] == 'Incomplete'), None)
         is_err = next((t for a, t in o.st.pc if a == ('is', pterm, 'Err')), None)
         if is_err is None:
             ok_ = next((t for a, t in o.st.pc if a == ('is', pterm, 'Ok')), None)
